@@ -77,7 +77,7 @@ SumTables(st, i) == IF i > Len(st) THEN 0 ELSE Tables(st[i]) + SumTables(st, i +
 
 GlobalMon(e, la) ==
     /\ \A i \in DOMAIN e.st : SlotMon(e, e.st[i])
-    /\ Chk("C05", "no_use_of_dead_object", e, e.led.dead = <<>>)
+    /\ Chk("C05,C06", "no_use_of_dead_object", e, e.led.dead = <<>>)
     /\ Chk("C06", "no_double_drop", e, e.led.dd = <<>>)
     /\ Chk("C06", "no_shared_objects", e, SumIds(e.st, 1) = Cardinality(AllIds(e.st)))
     /\ Chk("C03", "live_table_allocations", e, HasF(e, "par") \/ e.cost.live = SumTables(e.st, 1) + la)
